@@ -56,8 +56,12 @@ static void drv_header(jb_t *b)
 static void drv_reset(void)
 {
     int i;
+#ifdef USE_INITIALIZER
+    { struct cstl_heap x = CSTL_HEAP_INITIALIZER(struct el, n, cmp, E_PRIV); H[0] = x; H[1] = x; }
+#else
     cstl_heap_init(&H[0], cmp, E_PRIV, offsetof(struct el, n));
     cstl_heap_init(&H[1], cmp, E_PRIV, offsetof(struct el, n));
+#endif
     cur = 0;
     for (i = 0; i <= N; i++) { memset(&pool[i].n, 0, sizeof pool[i].n); held[i] = 0; }
 }
